@@ -355,7 +355,7 @@ func (sc *Dec) runEpisode(ep *DecEpisode, dp **jsontext.Decoder, env *Env, epIdx
 	report := func(prop, class, site, f string, a ...any) bool {
 		v := core.Violationf(prop, class, site, f, a...)
 		viols = append(viols, v)
-		return !env.Known[v.Key()]
+		return v.Property == env.Prop && !env.Known[v.Key()]
 	}
 
 	// Independent oracle.
